@@ -8,6 +8,7 @@ import Pyunicorn.Generated.ArithC10
 import Pyunicorn.Lemmas.Coupling4
 import Pyunicorn.Lemmas.CouplingOccupancy
 import Pyunicorn.Lemmas.CouplingGJ
+import Pyunicorn.Lemmas.CouplingGJ2
 import Pyunicorn.Generated.StructC10
 /-!
 # C10 — Similarity and coupling estimates equal reference statistics
@@ -1267,5 +1268,93 @@ theorem lag_store_wraps (lag : Nat) (h1 : 128 ≤ lag) (h2 : lag ≤ 255) (z : I
 
 example : wrapBits 8 150 = -106 := by decide
 example : wrapBits 16 150 = 150 := by decide
+
+/-! ## Round 5: the elimination fails for singular matrices only (completeness of `gjInverse`) -/
+
+/-- **completeness of the pivot search**: for every matrix `C` and every `N`, `gjInverse C N`
+returns `none` **iff** `C` has a non-zero kernel vector on the indices `< N`.  (Row operations
+are reversible, so the left half of the augmented matrix keeps the kernel of `C`; when no pivot
+is found in column `c`, that column is a combination of the unit columns before it.)  Together
+with `gjInverse_correct`: the model of `numpy.linalg.inv` returns a matrix exactly for the
+regular matrices, and then the inverse. -/
+theorem gjInverse_complete (C : Nat → Nat → Rat) (N : Nat) :
+    gjInverse C N = none ↔
+      ∃ v : Nat → Rat, (∃ l, l < N ∧ v l ≠ 0) ∧ ∀ k, k < N → sumTo N (fun l => C k l * v l) = 0 :=
+  gjInverse_none_iff C N
+
+/-- the same as an existence statement: the elimination succeeds iff `C` has a left inverse at
+all -/
+theorem gjInverse_succeeds_iff (C : Nat → Nat → Rat) (N : Nat) :
+    (gjInverse C N).isSome ↔
+      ∃ P : Nat → Nat → Rat, ∀ i j, i < N → j < N →
+        sumTo N (fun l => P i l * C l j) = if i = j then 1 else 0 := by
+  constructor
+  · intro h
+    obtain ⟨P, hP⟩ := Option.isSome_iff_exists.mp h
+    exact ⟨P, fun i j hi hj => gjInverse_correct C N P hP i j hi hj⟩
+  · intro ⟨P, hP⟩
+    cases h : gjInverse C N with
+    | some _ => rfl
+    | none =>
+      obtain ⟨v, ⟨l, hl, hne⟩, hk⟩ := (gjInverse_complete C N).mp h
+      exact absurd (left_inverse_kernel C P N hP v hk l hl) hne
+
+/-- **the witness the driver prints** (`gjKernel`, executable): if it returns `(c, w)` then the
+elimination got through the columns `< c` and found no pivot in column `c`; `w` has `N` entries,
+`w_c = -1`, `w_l = 0` beyond `c`, and `C · w = 0` — the harness checks exactly this on the
+covariance matrix the implementation is run on -/
+theorem gjKernel_witness (C : Nat → Nat → Rat) (N c : Nat) (w : List Rat)
+    (h : gjKernel C N = some (c, w)) :
+    c < N ∧ w.length = N ∧ w.getD c 0 = -1 ∧ (∀ l, c < l → l < N → w.getD l 0 = 0) ∧
+      (∃ M, gjLoop N c (gjAug C N) = some M ∧ gjStep M c = none) ∧
+      ∀ k, k < N → sumTo N (fun l => C k l * w.getD l 0) = 0 :=
+  gjKernel_spec C N c w h
+
+/-- exactly one of the two happens: a kernel vector or an inverse -/
+theorem gjKernel_dichotomy (C : Nat → Nat → Rat) (N : Nat) :
+    gjKernel C N = none ↔ (gjInverse C N).isSome :=
+  gjKernel_none_iff C N
+
+example : gjKernel (fun a b => ([[1, 2, 3], [2, 4, 6], [1, 0, 1]].getD a []).getD b (0 : Rat)) 3 =
+    some (2, [1, 1, -1]) := by decide +kernel
+example : gjKernel (fun a b => ([[2, 1], [1, 2]].getD a []).getD b (0 : Rat)) 2 = none := by
+  decide +kernel
+/-- a zero on the diagonal is not a failure (row swap) -/
+example : gjKernel (fun a b => ([[0, 1], [1, 0]].getD a []).getD b (0 : Rat)) 2 = none := by
+  decide +kernel
+
+/-- **when the partial-correlation model has no value**: on the covariance matrix of the series
+`r_a` (`n` samples) the elimination fails **iff** the series are exactly collinear — some
+non-trivial combination `Σ_a v_a (r_a(t) - mean_a)` vanishes at every sample.  This is the case
+for which `_calculate_correlation` has its `det(C) == 0` / `pinv` branch; for every other data set
+the model returns the partial correlations (`model_partial_correlation_total`). -/
+theorem partial_correlation_fails_iff_collinear (n N : Nat) (r : Nat → Nat → Rat) :
+    gjInverse (fun a b => covTo n (r a) (r b)) N = none ↔
+      ∃ v : Nat → Rat, (∃ l, l < N ∧ v l ≠ 0) ∧ ∀ t, t < n → combCentred r n N v t = 0 := by
+  rw [gjInverse_complete]
+  constructor
+  · intro ⟨v, hne, hk⟩
+    exact ⟨v, hne, gram_kernel_collinear r n N v hk⟩
+  · intro ⟨v, hne, hc⟩
+    exact ⟨v, hne, collinear_gram_kernel r n N v hc⟩
+
+example : combCentred (fun a t => ([[1, 2, 4], [2, 4, 8]].getD a []).getD t 0) 3 2
+    (fun l => [2, -1].getD l 0) 1 = 0 := by decide +kernel
+
+/-- **total form of `model_partial_correlation`**: for every data set whose series are not
+exactly collinear the executable model `normInvSq ∘ gjInverse` *has* a value, and every
+off-diagonal entry is the partial correlation of the two series given all others, in `[-1, 1]` -/
+theorem model_partial_correlation_total (n N : Nat) (r : Nat → Nat → Rat)
+    (hreg : ∀ v : Nat → Rat, (∀ t, t < n → combCentred r n N v t = 0) → ∀ l, l < N → v l = 0) :
+    ∃ P, gjInverse (fun a b => covTo n (r a) (r b)) N = some P ∧
+      ∀ i j, i < N → j < N → i ≠ j →
+        normInvSq P i j = parCorrSqG (fun a b => covTo n (r a) (r b)) (othersOf N i j) i j ∧
+          -1 ≤ normInvSq P i j ∧ normInvSq P i j ≤ 1 := by
+  cases h : gjInverse (fun a b => covTo n (r a) (r b)) N with
+  | none =>
+    obtain ⟨v, ⟨l, hl, hne⟩, hc⟩ := (partial_correlation_fails_iff_collinear n N r).mp h
+    exact absurd (hreg v hc l hl) hne
+  | some P =>
+    exact ⟨P, rfl, fun i j hi hj hij => model_partial_correlation n N r P h i j hi hj hij⟩
 
 end Pyunicorn.Coupling
